@@ -141,7 +141,8 @@ int main(int argc, char **argv)
   snprintf(path, sizeof path, "%s/f.conf", mc_work);
   if (mc_opt.case_id) return mc_replay(gen, exec, mc_opt.case_id);
   int complete = 1;
-  for (int cfgi = 0; cfgi < CG_NCFG_WITH_DEFAULT_COMMENT && complete; cfgi++) {
+  for (int ci = 0; ci < CG_NCFG_WITH_ODD_COMMENT && complete; ci++) {
+    int cfgi = (ci + CG_NCFG_WITH_DEFAULT_COMMENT) % CG_NCFG_WITH_ODD_COMMENT;      /* the odd comment sets first */
     if (longmode && !mc_opt.thorough && cfgi % 7 != 0) continue;      /* quick: the four comment sets with delimiter "=" */
     mc_tag = cfgi;
     complete = mc_explore(gen, exec, 0, 0);
